@@ -31,22 +31,30 @@ def switches(ctx):
     return sw, cfg
 
 
-def h_dest(ctx, N, mode):
+def h_dest(ctx, N, mode, prefix=(), limits=2):
     w = World(ctx)
     mode = ACK if mode == "ack" else UNACK
     sw, icfg = switches(ctx)
     closure = bool(ctx.choice("closure", 2))
     sc = DstScenario(ctx, w, mode=mode, cktype=ChecksumType.CRC_32, closure=closure,
-                     rig_kwargs={"indications": icfg, "immediate_nak": True})
+                     rig_kwargs={"indications": icfg, "immediate_nak": True, "ack_limit": limits,
+                                 "nak_limit": limits, "check_limit": limits})
     S = sc.S
+    if prefix:
+        ctx.assume(S <= hdst.LMAX)
     alphabet = ["MD", "FD", "EOF", "EOFC", "TICK", "CANCEL"] + (["ACKFIN"] if mode == ACK else [])
+    script = list(prefix)
     md_ind = False
     finished_seen = False
     eof_seen = False
     pending_fin_ind = None  # codes of the last Transaction-Finished indication, to match the Finished PDU
-    for i in range(N):
+    for i in range(len(script) + N):
         was_idle = sc.rig.idle
-        o = sc.step(alphabet)
+        if i < len(script):
+            # scripted prefix: a complete delivery, so that the open part starts in the late steps
+            o = {"MD": sc.md, "FD0": lambda: sc.fd(0, S), "EOF": sc.eof, "TICK0": sc.tick0}[script[i]]()
+        else:
+            o = sc.step(alphabet)
         hdst.end_if_other_property(ctx, o)
         ev = sc.events[-1]
         kinds = [e[0] for e in o.ind]
@@ -226,6 +234,12 @@ def plan(tier):
     for mode in ("ack", "unack"):
         specs.append(Spec(f"dest/{mode}/N={n}", "vf.harness.c15:h_dest", {"N": n, "mode": mode}, twin_share=0.03,
                           obligations=["fd_accepted", "md_accepted"]))
+    for lim in (1, 2):
+        specs.append(Spec(f"dest/ack/after-delivery/limits={lim}/N={3 if q else 4}", "vf.harness.c15:h_dest",
+                          {"N": 3 if q else 4, "mode": "ack", "prefix": ["MD", "FD0", "EOF", "TICK0"], "limits": lim},
+                          twin_share=0.05, obligations=["finished_pdu"]))
+    specs.append(Spec(f"dest/unack/after-eof-missing/limits=1/N={3 if q else 4}", "vf.harness.c15:h_dest",
+                      {"N": 3 if q else 4, "mode": "unack", "prefix": ["MD", "EOF"], "limits": 1}, twin_share=0.05))
     t = 2 if q else 3
     for mode, pre in (("ack", "md"), ("ack", "sm2"), ("ack", "sm3"), ("ack", "eof_acked"), ("ack", "fin_rcvd"),
                       ("unack", "md"), ("unack", "sm2"), ("unack", "sm3"), ("unack", "fin_rcvd")):
@@ -238,7 +252,7 @@ def plan(tier):
 
 
 BOUNDS = {
-    "quick": "the four implemented indication switches symbolic (forked when the handler consults them); receiver: every sequence of N=4 events over {Metadata, File Data (symbolic offset/length), EOF, EOF(cancel), tick, cancel request, ACK(Finished)} in both modes, closure on/off; sender: 9 canonical prefixes + every sequence of T=2 events; message-to-user lists: none / plain / originating id / proxy put response + originating id",
+    "quick": "the four implemented indication switches symbolic (forked when the handler consults them); receiver: every sequence of N=4 events (and N=3 events after a scripted complete delivery with expiration limits 1 and 2, so that limit faults and the Finished(cancel) exchange are reached) over {Metadata, File Data (symbolic offset/length), EOF, EOF(cancel), tick, cancel request, ACK(Finished)} in both modes, closure on/off; sender: 9 canonical prefixes + every sequence of T=2 events; message-to-user lists: none / plain / originating id / proxy put response + originating id",
     "thorough": "receiver N=5, sender T=3",
 }
 OUTSIDE = "TLV contents beyond the four lists; suspended/resumed indications (unimplemented); 'exactly one Transaction-Finished per transaction' is not demanded here (a cancel request after completion repeats it)"
